@@ -591,9 +591,9 @@ func runBytes(c Case) *vt.Outcome {
 					continue
 				}
 				if vt.IsKnown("C11/alloc/vng") {
-					if seg, err := vngScreen(input); err == nil && seg > segmentLimit {
+					if seg, sum, err := vngScreen(input); err == nil && (seg > segmentLimit || sum > lengthsLimit) {
 						rep.report("C11/alloc/vng", "")
-						o.Label("excluded:" + via + ":vng-segment-over-32MiB")
+						o.Label("excluded:" + via + ":vng-declares-huge-segment-or-length")
 						continue
 					}
 				}
